@@ -911,8 +911,10 @@ impl<R: Read> RdbReader<R> {
                             };
                             
                             // Check if we have enough remaining data for all fields
-                            if entry_idx + (field_count * 2) > remaining_count {
-                                break; // Not enough data for all field-value pairs
+                            // (field_count comes from the file: no unchecked arithmetic on it)
+                            match field_count.checked_mul(2).and_then(|n| n.checked_add(entry_idx)) {
+                                Some(needed) if needed <= remaining_count => {}
+                                _ => break, // Not enough data for all field-value pairs
                             }
                             
                             // Read field-value pairs
@@ -1029,8 +1031,14 @@ impl<R: Read> RdbReader<R> {
     /// Read string
     fn read_string(&mut self) -> Result<Vec<u8>> {
         let len = self.read_length()?;
-        let mut buf = vec![0u8; len];
-        self.read_exact(&mut buf)?;
+        // The length comes from the file: do not allocate it up front (a corrupt length field
+        // would reserve up to 4 GB); read at most `len` bytes and grow with what is there
+        let mut buf = Vec::new();
+        let read = (&mut self.reader).take(len as u64).read_to_end(&mut buf)
+            .map_err(|e| FerrousError::Io(e.to_string()))?;
+        if read != len {
+            return Err(FerrousError::Io("unexpected end of RDB file inside a string".to_string()));
+        }
         Ok(buf)
     }
     
